@@ -361,10 +361,15 @@ func moveOutArrayDir(w *bytes.Buffer, value json.RawMessage,
 	if _, err := w.WriteString("[\n"); err != nil {
 		return err
 	}
-	p := syntax.StructMember{
-		Tname: t.Elem.TypeId(),
+	// The elements of a multi-dimensional array are themselves arrays.
+	var elemType syntax.Type = t.Elem
+	if t.Dim > 1 {
+		elemType = &syntax.ArrayType{Elem: t.Elem, Dim: t.Dim - 1}
 	}
-	p.CacheIsFile(t.Elem)
+	p := syntax.StructMember{
+		Tname: elemType.TypeId(),
+	}
+	p.CacheIsFile(elemType)
 	width := util.WidthForInt(len(valueArr))
 	var errs syntax.ErrorList
 	for i, v := range valueArr {
@@ -377,7 +382,7 @@ func moveOutArrayDir(w *bytes.Buffer, value json.RawMessage,
 		p.Id = k
 		if err := moveOutFiles(w,
 			&p,
-			t.Elem.IsFile(),
+			elemType.IsFile(),
 			v,
 			lookup,
 			pipestancePath,
